@@ -18,6 +18,7 @@ From Coq Require Import ZArith List Bool String.
 Import ListNotations.
 From MP Require Import Base Gen_path Gen_compact Gen_sqlbatch CacheMap CacheMap_proofs CachePath_proofs.
 From MP Require Import FileCache FileCache_proofs SqlCache SqlCache_proofs CacheBackends CacheBackends_proofs.
+From MP Require Import SqlTtl SqlTtl_proofs.
 From MP Require Import Bytes Bundle CompactBytes CompactBytes_proofs.
 Local Open Scope Z_scope.
 
@@ -265,3 +266,29 @@ Theorem failed_store_then_retry_through_the_same_tile_object_writes :
     r1 = Some false /\ t_stored t1 = false /\
     fst (fst (tcall_step layout ext link s1 t1 (TStore d' b'))) = fstore layout ext link s1 a b'.
 Proof. exact failed_store_then_retry_writes. Qed.
+
+(* ---------------------------------------------------------------- sqlite caches configured with a ttl *)
+
+(* MBTilesCache with time stamps and `ttl` (every level database of the per-level sqlite cache is one): rows carry
+   last_modified = local time of the store, the SELECTs of load_tile / is_cached / load_tiles add
+   "datetime('now', 'localtime', '-ttl seconds') < last_modified".  For EVERY time zone offset `off` and every history
+   whose clock readings stay inside one window [lo, lo + ttl) (the ttl has not run out; the readings need not even be
+   monotone), the cache answers every operation exactly like the cache without ttl ... *)
+Theorem sqlite_with_ttl_answers_like_without_ttl_inside_the_window :
+  forall p off ttl lo tops, in_window ttl lo tops ->
+    snd (tsql_run p code_sites off ttl [] tops) = snd (sql_run p [] (map snd tops)).
+Proof. exact ttl_cache_is_the_cache. Qed.
+
+(* ... hence like the map from tile address to bytes. *)
+Theorem mbtiles_with_ttl_behaves_like_a_map_inside_the_window :
+  forall off ttl lo d0 tops, in_window ttl lo tops -> ops_ok (sql_valid d0) (map snd tops) ->
+    snd (tsql_run mbtiles_params code_sites off ttl [] tops) = spec_outs (map snd tops).
+Proof. exact ttl_mbtiles_refines. Qed.
+
+(* This rests on the three statements (INSERT, single SELECT, bulk SELECT) agreeing on the 'localtime' modifier
+   (`code_sites`, compared with the source text on every run): drop it from the bulk SELECT alone and a tile stored a
+   second ago is missed by the bulk load west of UTC. *)
+Theorem ttl_statements_must_agree_on_localtime :
+  exists off ttl tops, in_window ttl 100 tops /\
+    snd (tsql_run mbtiles_params (mkSites true true false) off ttl [] tops) <> snd (sql_run mbtiles_params [] (map snd tops)).
+Proof. exact ttl_sites_must_agree_refuted. Qed.
